@@ -11,6 +11,7 @@ import (
 	"github.com/ovn-org/libovsdb/model"
 	"github.com/ovn-org/libovsdb/ovsdb"
 
+	"verif/mc/canon"
 	rm "verif/mc/refmodel"
 	"verif/mc/schemas"
 	"verif/mc/sys"
@@ -248,3 +249,6 @@ func jsonRoundTrip(v interface{}, dst interface{}) error {
 
 // colValue reads a column of a model as a canonical value.
 func colValue(c *rm.Col, m model.Model) rm.Value { return sys.FromNative(c, schemas.Get(m, c.Name)) }
+
+// canonNativeStr: canonical rendering of a native value (see mc/canon).
+func canonNativeStr(x interface{}) string { return canon.Native(x) }
